@@ -223,11 +223,11 @@ def sweeps():
 
 def gen(rng, tier):
     yield from sweeps()
-    nv = 12000 if tier == "quick" else 150000
+    nv = 30000 if tier == "quick" else 300000
     for _ in range(nv):
         name, items = rand_value(rng)
         yield fields_line(name, items)
-    ns = 5000 if tier == "quick" else 60000
+    ns = 12000 if tier == "quick" else 120000
     for _ in range(ns):
         name, items = rand_value(rng)
         yield pline(string_of(rng, name, items, "alt" if rng.random() < 0.7 else "min"))
